@@ -11,7 +11,7 @@
 (*                                                                                                         *)
 (* Invariants further down are written from the property texts (C01 C02 C10 C11 C16 C17) over the event    *)
 (* log; Nesting.tla gives the independent compositional semantics used for C01's refinement check.         *)
-EXTENDS Classify, Json
+EXTENDS FailsafeBase, Json
 
 CONSTANTS
   Stacks,     \* set of policy stacks (sequences of descriptors, outermost first)
@@ -24,28 +24,7 @@ CONSTANTS
 VARIABLES stack, m, fin
 vars == <<stack, m, fin>>
 
-BO(c) == INSTANCE BreakerOps WITH Cfg <- c, SliceU <- 2
-
 N == Len(stack)
-Pair(r, e) == [r |-> r, e |-> e]
-NoLast == Pair("R0", Nil)
-PR(r, e, d, s, a) == [r |-> r, e |-> e, done |-> d, succ |-> s, sall |-> a]
-\* common/result.go
-WithDone(pr, d, s) == [pr EXCEPT !.done = d, !.succ = s, !.sall = s /\ pr.sall]
-WithFailure(pr) == [pr EXCEPT !.succ = FALSE, !.sall = FALSE]
-\* internal.FailureResult
-Failure(e) == PR("R0", e, TRUE, FALSE, FALSE)
-Exceeded(r, e) == [op |-> "Exceeded" \o r, ch |-> <<e>>]          \* retrypolicy.ExceededError{LastResult, LastError}
-
-\* errors.Is against the library's sentinels (ExceededError.Is(ErrExceeded))
-IsX(e, s) == Is(e, s) \/ (s = "ErrExceeded" /\ (Is(e, "ExceededR0") \/ Is(e, "ExceededR1") \/ Is(e, "ExceededR2") \/ Is(e, "ExceededRF")))
-MatchesX(c, r, e) == IF c.t = "errors" THEN IsX(e, c.v) ELSE Matches(c, r, e)
-IsFailureX(conds, r, e) ==
-  IF conds = {} THEN ~IsNil(e)
-  ELSE \/ \E c \in conds : MatchesX(c, r, e)
-       \/ (~IsNil(e) /\ ~\E c \in conds : InspectsErrors(c))
-\* abort / cancel conditions as the code evaluates them (a result registration ignores the error)
-AbortsCode(conds, r, e) == \E c \in conds : MatchesX(c, r, e) \/ (c.t = "result" /\ r = c.v)
 
 ----------------------------------------------------------------------------
 (* ---- machine state ---- *)
